@@ -269,7 +269,58 @@ def check_malformed(case):
     raise Violation(f"minerals with mismatched {kind} were accepted")
 
 
+def check_stiffness_mutation(case):
+    """Documented way to use custom stiffnesses: modify the attributes of a StiffnessTensors
+    instance. The same instance is used for several averages with its attributes reassigned
+    in between; every result must reflect the current attribute values."""
+    minerals, mlist, present, phases, phi = _build(case["base"])
+    assemblage = [_core.MineralPhase(p) for p in phases]
+    st_obj = _minerals.StiffnessTensors()
+    worst = 0.0
+    for k, spec in enumerate([{"k": "default"}] + case["muts"]):
+        if spec["k"] == "custom":
+            st_obj.olivine = _make_stiffness(spec["ol"], spec["tric"])
+            st_obj.enstatite = _make_stiffness(spec["en"], spec["tric"])
+        C = {"ol": np.asarray(st_obj.olivine), "en": np.asarray(st_obj.enstatite)}
+        scale = max(np.abs(C["ol"]).max(), np.abs(C["en"]).max())
+        out = sut(pydrex.voigt_averages, mlist, assemblage, list(phi), st_obj)
+        for s_ in range(case["base"]["steps"]):
+            ref = _reference(minerals, present, phi, C, s_)
+            e = float(np.abs(out[s_] - ref).max()) / scale
+            require(e <= 1e-9, f"average number {k + 1} with the same StiffnessTensors instance does not reflect its current attributes (relative deviation {e:.3e})", e)
+            worst = max(worst, e)
+    # the default argument (a module-level instance) must not have been affected
+    out_def = sut(pydrex.voigt_averages, mlist, assemblage, list(phi))
+    Cd = {"ol": np.asarray(_minerals.StiffnessTensors().olivine), "en": np.asarray(_minerals.StiffnessTensors().enstatite)}
+    e = float(np.abs(out_def[0] - _reference(minerals, present, phi, Cd, 0)).max()) / np.abs(Cd["ol"]).max()
+    require(e <= 1e-9, f"default stiffness tensors changed after custom ones were used (relative deviation {e:.3e})", e)
+    return {"nontrivial": len(case["muts"]) >= 1, "labels": [f"mutations{len(case['muts'])}"], "residual": max(worst, e)}
+
+
 ORACLES = [
+    Oracle(
+        "stiffness_mutation_sequence",
+        st.fixed_dictionaries(
+            {
+                "base": voigt_case(),
+                "muts": st.lists(
+                    st.fixed_dictionaries(
+                        {
+                            "k": st.just("custom"),
+                            "ol": st.lists(st.floats(0.0, 1.0), min_size=21, max_size=21),
+                            "en": st.lists(st.floats(0.0, 1.0), min_size=21, max_size=21),
+                            "tric": st.booleans(),
+                        }
+                    ),
+                    min_size=1,
+                    max_size=3,
+                ),
+            }
+        ),
+        check_stiffness_mutation,
+        quick=60,
+        thorough=600,
+    ),
     Oracle("weighted_sum", voigt_case(), check_voigt, classify=lambda c: c["assemblage"], quick=250, thorough=5000),
     Oracle(
         "single_aligned_grain",
